@@ -45,13 +45,14 @@ OPS = [
     ['s', 3], ['s', 60], ['p', 1.5], ['p', NAN],
     ['d', 0, 1], ['d', 1, 2], ['d', 0, 100], ['t', 0, 5], ['t', 0, 6],
     ['attach', 'a.bin', b'\x00\xff\x01'], ['attach', 'b.txt', b''], ['log'], ['read'],
+    ['c', 3], ['c', 9],   # a measurement whose validator was switched on by a diagnosis of an earlier phase
     ['tbad'],   # a coordinate that cannot be a key (rejected: must leave no trace in any rendering)
     ['pl'],     # publish a mutable list: first time [0.0]; later: append to the SAME object and publish it again
 ]
 
 
 def opsig(op):
-  if op[0] in ('s', 'p'):
+  if op[0] in ('s', 'p', 'c'):
     return '%s=%s' % (op[0], 'nan' if isinstance(op[1], float) and op[1] != op[1] else op[1])
   if op[0] in ('d', 't'):
     return '%s[%s]=%s' % (op[0], op[1], op[2])
@@ -106,6 +107,8 @@ def run_history(hist):
       if op[0] == 'pl':
         shared.append(len(shared) * 1.5)
         test.measurements.p = shared
+      elif op[0] == 'c':
+        test.measurements.c = op[1]
       elif op[0] == 'tbad':
         try:
           test.measurements.t[[0]] = 5
@@ -147,9 +150,11 @@ def run_history(hist):
       h.Measurement('p'),
       h.Measurement('d').with_dimensions('x').with_transform(lambda x: x * 2).with_validator(
           v.dimension_pivot_validate(v.in_range(0, 100))),
-      h.Measurement('t').with_dimensions('x'))(ph)
+      h.Measurement('t').with_dimensions('x'),
+      h.Measurement('c').validate_on({L['R'].A: v.in_range(0, 4)}))(ph)
+  pre = progs.make_phase('pre', {'ret': ['ok'], 'diag': ['A']}, progs.RunCtx())
   out = io.BytesIO()
-  res, recs, test, terr = htf.run_test([ph], callbacks=[json_factory.OutputToJSON(out, sort_keys=True), snap_cb])
+  res, recs, test, terr = htf.run_test([pre, ph], callbacks=[json_factory.OutputToJSON(out, sort_keys=True), snap_cb])
   rec = recs[0]
   bad.extend(check_final(rec, out.getvalue().decode()))
   return bad, {'outcome': rec.outcome.name, 'reads': reads}
